@@ -316,8 +316,9 @@ class PanopticaResult(object):
         prediction_empty = pred_binary.sum() == 0
         reference_empty = ref_binary.sum() == 0
         if prediction_empty or reference_empty:
+            # instance "counts" of the binarised masks: 0 for an empty foreground, 1 otherwise
             is_edgecase, result = self._edge_case_handler.handle_zero_tp(
-                metric, 0, int(prediction_empty), int(reference_empty)
+                metric, 0, int(not prediction_empty), int(not reference_empty)
             )
             if is_edgecase:
                 return result
